@@ -249,6 +249,11 @@ type instJudge struct {
 	inits     int
 	since     map[string]bool // call kinds since the last root observation
 
+	// golden marks the instance that runs on a copy of the recorded data directory (golden.go); genesisUnknown:
+	// its first InitChain was answered before this run
+	golden         bool
+	genesisUnknown bool
+
 	// second opinion
 	model      map[string]string
 	modelLost  bool
@@ -313,6 +318,9 @@ func (j *instJudge) observeRoot(kind string, call int, what, got string) {
 	oth, hasOth := rec.byInst[j.other]
 	if hasOth {
 		j.hit("instances-equal")
+		if j.golden {
+			j.hit("golden-datadir-equals-fresh")
+		}
 		if oth.finals != cur.finals || oth.physFH != cur.physFH || oth.hasFH != cur.hasFH {
 			j.hit("equal-despite-setfinal-timing")
 		}
@@ -329,6 +337,9 @@ func (j *instJudge) observeRoot(kind string, call int, what, got string) {
 	clause := "same-history-same-root"
 	if !hasOwn {
 		clause = "instances-equal"
+		if j.golden && hasOth {
+			clause = "golden-datadir-equals-fresh"
+		}
 	}
 	if hasOwn {
 		ks := sinceKinds(j.since)
@@ -503,6 +514,12 @@ func (j *instJudge) modelApply(writes [][2]string) {
 // history has taught so far.
 func judgeInstance(name, other string, h History, L *learned, ops []Op, obs []Obs, fhReserved bool, hit hitFn, count countFn) *instJudge {
 	j := &instJudge{name: name, other: other, h: h, L: L, hit: hit, count: count, firstRoot: map[int]string{}, since: map[string]bool{}, model: map[string]string{}, fhReserved: fhReserved}
+	return j.run(ops, obs)
+}
+
+// run replays calls and observations on a judge (which may already carry a past, see judgeGolden).
+func (j *instJudge) run(ops []Op, obs []Obs) *instJudge {
+	name, h := j.name, j.h
 	if len(obs) != len(ops) {
 		j.probs = append(j.probs, problem{"harness", fmt.Sprintf("instance %s: %d calls but %d observations", name, len(ops), len(obs)), ""})
 		return j
@@ -562,6 +579,17 @@ func judgeInstance(name, other string, h History, L *learned, ops []Op, obs []Ob
 
 func (j *instJudge) judgeInit(call int, what string, o Obs) {
 	L := j.L
+	if j.inited && j.genesisUnknown {
+		// the first InitChain of this directory was answered by the build that wrote it (golden.go): a repeated call
+		// must succeed; which bytes it returns is not compared with anything this build computes
+		j.hit("init-on-golden-datadir")
+		if o.Err != "" {
+			j.probs = append(j.probs, problem{"init-idempotent", fmt.Sprintf("instance %s, %s: InitChain failed (%s) on a data directory that was initialised before", j.name, what, o.Err), ""})
+			return
+		}
+		j.genesis, j.genesisUnknown = string(o.Root), false
+		return
+	}
 	if j.inited {
 		j.hit("init-idempotent")
 		if o.Err != "" {
@@ -726,5 +754,23 @@ func judgeHistory(h History, obsA, obsB []Obs, fhReserved bool, book *verdictBoo
 	L := newLearned(book)
 	a := judgeInstance("A", "B", h, L, h.OpsA, obsA, fhReserved, hit, count)
 	b := judgeInstance("B", "A", h, L, h.OpsB, obsB, fhReserved, hit, count)
+	return append(append([]problem{}, a.probs...), b.probs...)
+}
+
+// judgeGolden judges a history whose instance B runs on a copy of the recorded data directory: instance A (fresh)
+// executes the recorded blocks and the new ones, instance B only the new ones. B's past (which blocks the directory
+// holds, SetFinal and InitChain calls made on it) is taken from the record; the roots recorded there are not compared
+// with anything.
+func judgeGolden(h History, gold *goldenFile, obsA, obsB []Obs, fhReserved bool, book *verdictBook, hit hitFn, count countFn) []problem {
+	L := newLearned(book)
+	a := judgeInstance("A", "B", h, L, h.OpsA, obsA, fhReserved, hit, count)
+	// replay of the record on a private book of what was learned: only the bookkeeping of the judge is kept
+	past := History{Blocks: gold.Blocks}
+	b := judgeInstance("B", "A", past, newLearned(book), gold.Ops, gold.Obs, fhReserved, func(string) {}, func(string) {})
+	b.h, b.L, b.hit, b.count = h, L, hit, count
+	b.probs, b.firstRoot, b.since = nil, map[int]string{}, map[string]bool{}
+	b.golden, b.genesisUnknown = true, b.inited
+	b.reopens++
+	b.run(h.OpsB, obsB)
 	return append(append([]problem{}, a.probs...), b.probs...)
 }
